@@ -86,6 +86,116 @@ pub struct Slot {
     pub tyname: fn() -> &'static str,
 }
 
+impl Slot {
+    /// slot of any resource type (used for the same-named local types of the twin cases)
+    pub fn of<T: ZRes>(name: &'static str, has_default: bool) -> &'static Slot {
+        Box::leak(Box::new(Slot { name, idx: T::IDX, has_default, id: rid::<T>, insert: ins::<T>, get: get::<T>, tyname: tyname::<T> }))
+    }
+}
+
+/// What the generic twin code needs from a resource type.
+pub trait TwinRes: ZRes + Default + std::fmt::Debug + for<'b> Hrtb<'b> {}
+impl<T: ZRes + Default + std::fmt::Debug + for<'b> Hrtb<'b>> TwinRes for T {}
+
+/// A `Default` resource type declared locally (twin cases declare the SAME names in sibling blocks:
+/// distinct types with identical `std::any::type_name`).
+#[macro_export]
+macro_rules! zoo_local_res {
+    ($name:ident, $i:expr) => {
+        #[derive(Debug)]
+        struct $name(u32);
+        impl Default for $name {
+            fn default() -> Self {
+                $crate::zoo::log_default($i);
+                $name($crate::zoo::DEFAULT_BASE + $i)
+            }
+        }
+        impl $crate::zoo::ZRes for $name {
+            const IDX: usize = $i;
+            fn mk(v: u32) -> Self {
+                $name(v)
+            }
+            fn val(&self) -> u32 {
+                self.0
+            }
+        }
+        impl<'b> $crate::zoo::Hrtb<'b> for $name {}
+    };
+}
+
+/// One generated type GENERIC in its resource types `$p..`, instantiated twice from sibling blocks of
+/// one function with same-named local resource types (`$loc = index`), first block then second block:
+/// declared ids must be a function of the type, not of its printed name or of what ran earlier.
+#[macro_export]
+macro_rules! zoo_twin {
+    ($m:ident, $id0:expr, $id1:expr, $lt:lifetime, [$($p:ident),*], [$($loc:ident = $i:expr),*], $t:ty) => {
+        pub mod $m {
+            #![allow(unused_imports, non_camel_case_types)]
+            use super::*;
+            use $crate::zoo::TwinRes;
+            pub struct Sys<$($p),*>(pub $crate::zoo::SysProbe, pub std::marker::PhantomData<fn() -> ($($p,)*)>);
+            impl<$lt, $($p: TwinRes),*> shred::System<$lt> for Sys<$($p),*> {
+                type SystemData = $t;
+                fn run(&mut self, data: Self::SystemData) {
+                    self.0.in_run();
+                    drop(data);
+                }
+            }
+            fn decl<$lt, $($p: TwinRes),*>() -> $crate::zoo::Decl {
+                $crate::zoo::decl_of::<$t>()
+            }
+            fn fetch<$lt, $($p: TwinRes),*>(w: &$lt shred::World, via: u8, ids: &[shred::ResourceId]) -> Vec<u8> {
+                $crate::zoo::fetch_of::<$t>(w, via, ids)
+            }
+            fn setup<$lt, $($p: TwinRes),*>(w: &mut shred::World, via: u8) {
+                $crate::zoo::setup_of::<$t>(w, via)
+            }
+            fn acc<$($p: TwinRes),*>() -> $crate::zoo::Decl {
+                use shred::{Accessor, System};
+                let s = Sys::<$($p),*>($crate::zoo::SysProbe::idle(), std::marker::PhantomData);
+                let a = s.accessor();
+                (a.reads(), a.writes())
+            }
+            fn sys_run<$lt, $($p: TwinRes),*>(w: &$lt shred::World, ids: &[shred::ResourceId]) -> Vec<u8> {
+                let mut s = Sys::<$($p),*>($crate::zoo::SysProbe { world: w as *const _, ids: ids.to_vec(), seen: None }, std::marker::PhantomData);
+                shred::RunNow::run_now(&mut s, w);
+                s.0.seen.take().unwrap_or_default()
+            }
+            fn sys_setup<$($p: TwinRes),*>(w: &mut shred::World) {
+                let mut s = Sys::<$($p),*>($crate::zoo::SysProbe::idle(), std::marker::PhantomData);
+                shred::RunNow::setup(&mut s, w);
+            }
+            fn exec<$lt, $($p: TwinRes),*>(w: &$lt mut shred::World) {
+                $crate::zoo::exec_of::<$t>(w)
+            }
+            fn ops<$($p: TwinRes),*>(id: u32) -> $crate::zoo::Ops {
+                $crate::zoo::Ops {
+                    id,
+                    decl: decl::<$($p),*>,
+                    fetch: fetch::<$($p),*>,
+                    setup: setup::<$($p),*>,
+                    acc: acc::<$($p),*>,
+                    sys_run: sys_run::<$($p),*>,
+                    sys_setup: sys_setup::<$($p),*>,
+                    exec: exec::<$($p),*>,
+                }
+            }
+            pub fn run(f: &mut dyn FnMut(&$crate::zoo::Ops, Vec<&'static $crate::zoo::Slot>)) {
+                {
+                    $( $crate::zoo_local_res!($loc, $i); )*
+                    f(&ops::<$($loc),*>($id0), vec![$( $crate::zoo::Slot::of::<$loc>(stringify!($loc), true) ),*]);
+                }
+                {
+                    $( $crate::zoo_local_res!($loc, $i); )*
+                    f(&ops::<$($loc),*>($id1), vec![$( $crate::zoo::Slot::of::<$loc>(stringify!($loc), true) ),*]);
+                }
+            }
+        }
+    };
+}
+
+pub type TwinFn = fn(&mut dyn FnMut(&Ops, Vec<&'static Slot>));
+
 fn rid<T: ZRes>() -> ResourceId {
     ResourceId::new::<T>()
 }
@@ -353,6 +463,8 @@ pub struct Stats {
     pub fetch_runs: usize,
     pub setup_runs: usize,
     pub exec_runs: usize,
+    pub second_pass: usize,
+    pub twin_blocks: usize,
     pub fetch_ok: usize,
     pub fetch_missing: usize,
     pub fetch_borrow: usize,
@@ -518,15 +630,21 @@ fn random_presence(n: usize, rng: &mut StdRng, k: usize) -> Vec<bool> {
     }
 }
 
-/// Record the trace block of one case.
-pub fn run_case(ops: &Ops, d: &CaseDesc, rng: &mut StdRng, ev: &mut Vec<Value>, st: &mut Stats) {
+/// Record the trace block of one case (resource types looked up by the descriptor's names).
+pub fn run_case(ops: &Ops, d: &CaseDesc, rng: &mut StdRng, ev: &mut Vec<Value>, st: &mut Stats, pass: u32) {
     let slots: Vec<&'static Slot> = d.conc.iter().map(|n| slot_by_name(n).unwrap_or_else(|| panic!("unknown concrete type {}", n))).collect();
+    run_case_with(ops, d, slots, rng, ev, st, pass)
+}
+
+/// Record the trace block of one case.  `pass` 1: everything; `pass` 2: only the declarations again
+/// (queried after every other type of the process has been used, in another order).
+pub fn run_case_with(ops: &Ops, d: &CaseDesc, slots: Vec<&'static Slot>, rng: &mut StdRng, ev: &mut Vec<Value>, st: &mut Stats, pass: u32) {
     assert_eq!(slots.len(), d.nres);
     let ids: Vec<ResourceId> = slots.iter().map(|s| (s.id)()).collect();
     let dflt: Vec<u32> = slots.iter().map(|s| DEFAULT_BASE + s.idx as u32).collect();
     let n0 = ev.len();
     ev.push(json!({"ev":"reset","case":d.id,"origin":d.origin,"ty":d.ty,"shape":d.shape,"nres":d.nres,"dflt":dflt,
-                   "conc":d.conc}));
+                   "conc":d.conc,"pass":pass}));
 
     // ---- declarations: the type, and the accessor of a real System using it
     let mut reported: Option<(Vec<u32>, Vec<u32>)> = None;
@@ -541,6 +659,12 @@ pub fn run_case(ops: &Ops, d: &CaseDesc, rng: &mut StdRng, ev: &mut Vec<Value>, 
             }
             Err(_) => ev.push(json!({"ev":"decl","via":via,"out":"panic","reads":[],"writes":[]})),
         }
+    }
+
+    if pass != 1 {
+        st.second_pass += 1;
+        st.events += ev.len() - n0;
+        return;
     }
 
     // ---- fetch runs
